@@ -591,12 +591,15 @@ def _short(b):
 
 
 def panic_sig(text):
-    """Normalised panic message without line numbers."""
+    """Normalised panic message: source file (no line numbers) + the message line."""
     import re
-    mm = re.search(r"panicked at (.*)", text)
+    mm = re.search(r"panicked at ([^\n]*)\n?([^\n]*)", text)
     if not mm:
         return "exit 101"
-    s = mm.group(1)
-    s = re.sub(r":\d+:\d+", "", s)
-    s = re.sub(r"\d+", "N", s)
-    return s[:160]
+    loc, msg = mm.group(1), mm.group(2)
+    loc = re.sub(r":\d+:\d+:?", "", loc).strip()
+    if "', " in loc:   # old format: panicked at 'msg', file:line
+        msg, _, loc = loc.rpartition("', ")
+        msg = msg.lstrip("'")
+    msg = re.sub(r"\d+", "N", msg).strip()
+    return ("%s: %s" % (loc, msg))[:200]
